@@ -6,6 +6,7 @@ observed; R03.4 failed opens detach the data source before clearing and ov_fopen
 R03.5 lap buffers.  Not decided: absence of unbounded loops; heap safety inside libogg."""
 import k2
 import k9
+import cfg
 from facts import AnalysisBroken
 from rules import common, c12
 
@@ -248,6 +249,115 @@ def r03_5(chk, P):
     return n
 
 
+def _derefs_null_param(P, H, j):
+    """analysed with parameter j == NULL on entry (K4), does H reach an access through it (directly or through a local that
+    then holds it)?  -> the first offending node or None"""
+    import absint
+    from absint import V
+    if H.entry is None:
+        return None
+    pid = H.params[j]['id']
+
+    def part(A_, env):
+        # states are kept apart by which locations hold the NULL argument (`w=w1; if(n1>n2)w=w2;`)
+        return frozenset(k for k, x in env.items() if isinstance(k, str) and isinstance(x, V) and x.tag == 'nullarg')
+    A = absint.Analyzer(P, H, partition=part)
+    base_init = A.initial_env
+
+    def init():
+        env = base_init()
+        env[f'v{pid}'] = V(0, 0, nn=False, tag='nullarg')
+        return env
+    A.initial_env = init
+    bad = []
+
+    def obs(A_, env, e, v):
+        nd = A_.ex[e]
+        b = None
+        if nd['k'] == 'sub' and 'extent' not in nd:
+            b = nd['c'][0]
+        elif nd['k'] == 'un' and nd['op'] == '*':
+            b = nd['c'][0]
+        elif nd['k'] == 'member' and nd.get('arrow'):
+            b = nd['c'][0]
+        if b is not None:
+            bv = A_.peek(env, b)
+            if isinstance(bv, V) and bv.tag == 'nullarg' and (bv.nn is False or bv.const() == 0):
+                bad.append(e)
+    A.observers.append(obs)
+    A.run()
+    return sorted(bad, key=lambda x: H.ex[x].get('loc') or [0, 0])[0] if bad else None
+
+
+def r03_6(chk, P):
+    chk.rule('R03.6', 'a NULL that a libvorbis function can return is not dereferenced by vorbisfile: for every call in vorbisfile.c '
+             'of a library function (outside vorbisfile.c) that has a literal NULL return (vorbis_window: "no window of that '
+             'size"), the result is known non-null (K4) wherever it is dereferenced in the caller, and wherever it is handed to '
+             'another function of vorbisfile.c either it is known non-null there or that function, analysed with the parameter '
+             'NULL on entry, reaches no access through it')
+    import absint
+    from absint import V, Hooks
+    nullable = set()
+    for G in P.functions():
+        if G.file.endswith('vorbisfile.c') or not G.d.get('ret_t', '').rstrip().endswith('*') or G.static:
+            continue
+        for r in cfg.returns(G):
+            c = G.ex[r].get('c', [])
+            if c and _constv(G, c[0]) == 0:
+                nullable.add(P.key(G))
+    n = 0
+    for F in P.functions():
+        if not F.file.endswith('vorbisfile.c'):
+            continue
+        sites = [c for c in F.calls() if any(t in nullable for t in P.call_targets(F, c))]
+        if not sites:
+            continue
+
+        class H(Hooks):
+            def post_call(self, A, env, e, r):
+                if e in sites:
+                    return V(nn=None, tag='nullable')
+                return None
+
+            def join_special(self, k, a, b):
+                return a if a == b else None
+        problems = {}
+
+        def obs(A, env, e, v):
+            nd = A.ex[e]
+            if nd['k'] == 'call':
+                for t in P.call_targets(A.F, e):
+                    if t.startswith(('ext:', 'cb:', 'unk:')):
+                        continue
+                    G = P.fn[t]
+                    for j, a in enumerate(nd.get('c', [])):
+                        av = A.peek(env, a)
+                        if isinstance(av, V) and av.tag == 'nullable' and av.nn is not True and j < len(G.params):
+                            off = _derefs_null_param(P, G, j)
+                            if off is not None:
+                                problems.setdefault(e, f'{A.F.s(a)} (possibly NULL) is passed to {G.name}, which accesses '
+                                                       f'{G.s(off)} (line {G.loc(off)}) without a test')
+            b = None
+            if nd['k'] == 'sub' and 'extent' not in nd:
+                b = nd['c'][0]
+            elif nd['k'] == 'un' and nd['op'] == '*':
+                b = nd['c'][0]
+            if b is not None:
+                bv = A.peek(env, b)
+                if isinstance(bv, V) and bv.tag == 'nullable' and bv.nn is not True:
+                    problems.setdefault(e, f'{A.F.s(e)} dereferences a result that may be NULL')
+        A = absint.Analyzer(P, F, hooks=H())
+        A.observers.append(obs)
+        A.run()
+        for i, c in enumerate(sorted(sites, key=lambda x: F.ex[x]['loc'])):
+            n += 1
+        first = sorted(problems, key=lambda x: F.ex[x]['loc'])[0] if problems else None
+        chk.ob('R03.6', F.name, 'nullable-results-tested', not problems, F.where(first) if first else F.where(sites[0]),
+               f'{len(sites)} calls of {sorted({F.ex[c]["callee"].get("d") for c in sites})}: the result is tested or only reaches '
+               'code that tolerates NULL' if not problems else '; '.join(sorted(set(problems.values())))[:400])
+    return n
+
+
 def _constv(F, e):
     nd = F.ex[F.strip_casts(e)]
     if nd['k'] == 'int':
@@ -263,6 +373,8 @@ def run(chk, P):
     chk.floor('R03.2', 1)
     r03_5(chk, P)
     chk.floor('R03.5', 5)
+    r03_6(chk, P)
+    chk.floor('R03.6', 1)
     r03_3(chk, P)
     chk.floor('R03.3', 10)
     chk.rule('R03.4', 'failed opens store NULL into vf->datasource before ov_clear on every path; the close callback has one '
